@@ -364,7 +364,7 @@ pub fn exec(case: &Case2, mut log: Option<&mut Vec<String>>) -> Exec2 {
                         // executed for C16 / C19 only: no model comparison
                         now = now_after;
                         mixd(ret.stamp);
-                        out.classes.insert(format!("{cls}:unmodelled"));
+                        out.classes.insert(format!("f{}:{cls}:unmodelled", sp.id));
                         return Ok(());
                     }
                     let tainted = fs.inv_tainted;
@@ -382,7 +382,7 @@ pub fn exec(case: &Case2, mut log: Option<&mut Vec<String>>) -> Exec2 {
                     if exec_stamp.is_some() {
                         let removed = model.e.keys().filter(|x| **x != kk && !r.e.contains_key(x)).count();
                         let stored = r.e.get(&kk).map_or(false, |e| Some(e.stamp) == exec_stamp);
-                        out.classes.insert(format!("{cls}:{}:rm{removed}", if stored { "stored" } else if *err { "err" } else { "unstored" }));
+                        out.classes.insert(format!("f{}:{cls}:{}:rm{removed}", sp.id, if stored { "stored" } else if *err { "err" } else { "unstored" }));
                         if removed > 0 {
                             out.counters.inc("probe.eviction");
                         }
@@ -399,7 +399,7 @@ pub fn exec(case: &Case2, mut log: Option<&mut Vec<String>>) -> Exec2 {
                             out.counters.inc("probe.oversize_skipped");
                         }
                     } else {
-                        out.classes.insert(cls.to_string());
+                        out.classes.insert(format!("f{}:{cls}", sp.id));
                     }
                     mixd(ret.stamp);
                     mixd(exec_stamp.unwrap_or(0));
@@ -593,7 +593,7 @@ fn check_after_conditional(st: &mut BTreeMap<u16, FnState>, masks: &[(u16, u8)],
             if removed > 0 && !strs.is_empty() {
                 out.counters.inc("probe.conditional_invalidation_strict_subset");
             }
-            out.classes.insert(format!("inv:with:{}:{}", removed.min(3), strs.len().min(3)));
+            out.classes.insert(format!("f{}:inv:with:{}:{}", fs.spec.id, removed.min(3), strs.len().min(3)));
             if let Some(m) = fs.models.get_mut(&0) {
                 m.invalidate(&|k| mask & (1 << k) != 0);
             }
